@@ -1,12 +1,1148 @@
-//! stub: property C05 has no correspondence harness yet
+//! C05 — HTTP/1 per-connection memory is bounded by configuration, not by the peer.
+//!
+//! Black-box accounting at a scripted socket and a recording service.  One case = a connection
+//! configuration, an input stream described by sized items, and a script of stimuli; after every
+//! stimulus the connection future is polled until three consecutive polls leave the observable
+//! tuple unchanged ("settled"), and a snapshot `T:C:D:P:A` is appended to the output:
+//!
+//!   T bytes taken from the socket          C service calls            D payload bytes handed to handlers
+//!   P body chunks pulled from responses    A bytes accepted by the socket
+//!
+//! The Lean model (`Model/DispBoundsSim.lean`) replays the same script and must print the same
+//! line.  The oracle below does not use the model: it compares read-ahead / write-ahead computed
+//! from the generator's ground truth (item sizes) and from the bytes the socket actually received
+//! against fixed bounds that are functions of the source constants and the configuration only.
+//!
+//! Token grammar (space separated; deleting a token keeps a case well-formed):
+//!   wbs=N   h1_write_buffer_size (default 32768)        seg=N  max bytes per poll_read (default 1024, 0 = fill everything offered)
+//!   wseg=N  max bytes per poll_write (default: no cap)  hc=0|1 h1_allow_half_closed (default 1)
+//!   +[K*]gH            K GET requests, head padded to H bytes
+//!   +[K*]lH:N          K POST requests, head H bytes, content-length N followed by N body bytes
+//!   +[K*]kH:CxM        K chunked POST requests, head H bytes, M chunks of C bytes, then the last-chunk
+//!   +KH:CxM            chunked POST that never terminates (M chunks, no last-chunk)
+//!   +jN                N bytes of a request head that never ends (endless header line)
+//!   +b                 five bytes that are not a request
+//!   sN / S   make N more / all input bytes readable        e   read side EOF once drained
+//!   cN / C   allow the handler to take N more / any number of payload chunks
+//!   r<spec>  the running (or next) handler answers with <spec>      R<spec>  every later handler answers at once with <spec>
+//!            spec = e (empty, Sized(0)) | n (BodySize::None) | sCxM (stream, M chunks of C bytes) | zCxM (sized) ; suffix k = keep the request payload alive
+//!   wN / W   the socket accepts N more / any number of bytes        p   just poll again
+use std::{
+    cell::RefCell,
+    collections::VecDeque,
+    convert::Infallible,
+    future::Future,
+    io,
+    pin::Pin,
+    rc::Rc,
+    task::{Context, Poll},
+    time::Duration,
+};
+
+use actix_http::{
+    body::{BodySize, MessageBody},
+    HttpService, KeepAlive, Request, Response, StatusCode,
+};
+use actix_service::{fn_service, Service as _, ServiceFactory as _};
+use bytes::Bytes;
+use futures_core::Stream as _;
+use tokio::io::{AsyncRead, AsyncWrite, ReadBuf};
+
 use super::Prop;
-use crate::common::CaseResult;
+use crate::common::{block_on_system, CaseResult, Ctx, Rng, Tier};
+
+// ---- constants the oracle's bounds are made of (kept in step with the source by a self-check
+// ---- against the values gen_consts extracts: see `consts_from_source`)
+const MAX_BUFFER_SIZE: usize = 131_072; // h1/decoder.rs
+const LW_BUFFER_SIZE: usize = 1024; // h1/dispatcher.rs
+const PAYLOAD_MAX: usize = 32_768; // h1/payload.rs
+const MAX_PIPELINED: usize = 16; // h1/dispatcher.rs
+const INF: u64 = u64::MAX / 4;
+
+const RULE: &str = "cases = (write-buffer size, read segment size, input stream of sized requests, script of stimuli: \
+make bytes readable / EOF / handler payload credits / handler answers / socket write budget); after each stimulus the \
+real connection future is polled until settled and (taken, calls, delivered, pulled, accepted) is recorded; families: \
+stalled handler with huge length/chunked bodies, handler reading one chunk per step, 10k tiny pipelined requests with a \
+handler that never completes, endless header line and over-long heads (431), socket that never accepts writes with \
+stream/sized bodies around h1_write_buffer_size, bodyless pipelined floods, random mixes; non-trivial = at least one \
+request reached the service or a 431/400 was produced; distinct = distinct (case, output) hashes";
+
+// ------------------------------------------------------------------------------------------
+// case description
+// ------------------------------------------------------------------------------------------
+
+#[derive(Clone, Debug, PartialEq)]
+enum Item {
+    Get { h: usize },
+    Len { h: usize, n: usize },
+    Chunked { h: usize, c: usize, m: usize, term: bool },
+    Junk { n: usize },
+    Bad,
+}
+
+#[derive(Clone, Debug, PartialEq)]
+enum BodyKind {
+    Empty,
+    NoBody,
+    Stream,
+    Sized,
+}
+
+#[derive(Clone, Debug, PartialEq)]
+struct Spec {
+    kind: BodyKind,
+    c: usize,
+    m: usize,
+    keep: bool,
+}
+
+#[derive(Clone, Debug)]
+enum Step {
+    Avail(usize),
+    AvailAll,
+    Eof,
+    Credit(u64),
+    CreditAll,
+    Respond(Spec),
+    Auto(Spec),
+    Budget(u64),
+    BudgetAll,
+    Poll,
+}
+
+#[derive(Clone, Debug)]
+struct Case {
+    wbs: usize,
+    seg: usize,
+    wseg: usize,
+    hc: bool,
+    items: Vec<Item>,
+    steps: Vec<Step>,
+}
+
+fn parse_cxm(s: &str) -> Option<(usize, usize)> {
+    let (c, m) = s.split_once('x')?;
+    Some((c.parse().ok()?, m.parse().ok()?))
+}
+
+fn parse_spec(s: &str) -> Option<Spec> {
+    let (s, keep) = match s.strip_suffix('k') {
+        Some(r) => (r, true),
+        None => (s, false),
+    };
+    let (kind, rest) = s.split_at(s.len().min(1));
+    match kind {
+        "e" if rest.is_empty() => Some(Spec { kind: BodyKind::Empty, c: 0, m: 0, keep }),
+        "n" if rest.is_empty() => Some(Spec { kind: BodyKind::NoBody, c: 0, m: 0, keep }),
+        "s" | "z" => {
+            let (c, m) = parse_cxm(rest)?;
+            if c == 0 || m == 0 {
+                return None;
+            }
+            Some(Spec { kind: if kind == "s" { BodyKind::Stream } else { BodyKind::Sized }, c, m, keep })
+        }
+        _ => None,
+    }
+}
+
+fn parse_item(s: &str, out: &mut Vec<Item>) -> Option<()> {
+    let (rep, s) = match s.split_once('*') {
+        Some((k, r)) => (k.parse::<usize>().ok()?, r),
+        None => (1, s),
+    };
+    if rep > 200_000 {
+        return None;
+    }
+    let (k, rest) = s.split_at(s.len().min(1));
+    let it = match k {
+        "g" => Item::Get { h: rest.parse().ok()? },
+        "l" => {
+            let (h, n) = rest.split_once(':')?;
+            Item::Len { h: h.parse().ok()?, n: n.parse().ok()? }
+        }
+        "k" | "K" => {
+            let (h, cm) = rest.split_once(':')?;
+            let (c, m) = parse_cxm(cm)?;
+            Item::Chunked { h: h.parse().ok()?, c, m, term: k == "k" }
+        }
+        "j" => Item::Junk { n: rest.parse().ok()? },
+        "b" if rest.is_empty() => Item::Bad,
+        _ => return None,
+    };
+    for _ in 0..rep {
+        out.push(it.clone());
+    }
+    Some(())
+}
+
+fn parse_case(line: &str) -> Option<Case> {
+    let mut c = Case { wbs: 32_768, seg: 1024, wseg: 0, hc: true, items: vec![], steps: vec![] };
+    for w in line.split_ascii_whitespace() {
+        if let Some(v) = w.strip_prefix("wbs=") {
+            c.wbs = v.parse().ok()?;
+            if c.wbs == 0 {
+                return None;
+            }
+        } else if let Some(v) = w.strip_prefix("seg=") {
+            c.seg = v.parse().ok()?;
+        } else if let Some(v) = w.strip_prefix("wseg=") {
+            c.wseg = v.parse().ok()?;
+        } else if let Some(v) = w.strip_prefix("hc=") {
+            c.hc = v != "0";
+        } else if let Some(v) = w.strip_prefix('+') {
+            parse_item(v, &mut c.items)?;
+        } else {
+            let (k, rest) = w.split_at(1);
+            let st = match k {
+                "s" => Step::Avail(rest.parse().ok()?),
+                "S" if rest.is_empty() => Step::AvailAll,
+                "e" if rest.is_empty() => Step::Eof,
+                "c" => Step::Credit(rest.parse().ok()?),
+                "C" if rest.is_empty() => Step::CreditAll,
+                "r" => Step::Respond(parse_spec(rest)?),
+                "R" => Step::Auto(parse_spec(rest)?),
+                "w" => Step::Budget(rest.parse().ok()?),
+                "W" if rest.is_empty() => Step::BudgetAll,
+                "p" if rest.is_empty() => Step::Poll,
+                _ => return None,
+            };
+            c.steps.push(st);
+        }
+    }
+    // an unparsable item (endless head, non-request) may only be the last one
+    if let Some(k) = c.items.iter().position(|i| matches!(i, Item::Junk { .. } | Item::Bad)) {
+        if k + 1 != c.items.len() {
+            return None;
+        }
+    }
+    Some(c)
+}
+
+// ------------------------------------------------------------------------------------------
+// input stream (generator ground truth: where every request and every payload byte lies)
+// ------------------------------------------------------------------------------------------
+
+const GET_BASE: usize = 18; // "GET / HTTP/1.1\r\n\r\n"
+
+fn digits(n: usize) -> usize {
+    n.to_string().len()
+}
+fn len_base(n: usize) -> usize {
+    // "POST / HTTP/1.1\r\ncontent-length: N\r\n\r\n"
+    17 + 16 + digits(n) + 2 + 2
+}
+const CHUNKED_BASE: usize = 17 + 28 + 2; // "POST / HTTP/1.1\r\ntransfer-encoding: chunked\r\n\r\n"
+
+fn hexlen(n: usize) -> usize {
+    format!("{:x}", n).len()
+}
+
+/// Layout of one request in the stream.
+#[derive(Clone, Debug)]
+struct Lay {
+    start: usize,
+    head: usize,
+    end: usize,
+    /// payload layout: None, Length n, Chunked(c, m)
+    body: Body,
+    /// cannot be parsed (junk / bad): never reaches the service
+    unparsable: bool,
+}
+
+#[derive(Clone, Debug, PartialEq)]
+enum Body {
+    None,
+    Len(usize),
+    Chunked(usize, usize),
+}
+
+impl Lay {
+    /// wire offset (absolute) just after the `d`-th payload byte of this request
+    fn wire_after_payload(&self, d: usize) -> usize {
+        let b0 = self.start + self.head;
+        match self.body {
+            Body::None => b0,
+            Body::Len(n) => b0 + d.min(n),
+            Body::Chunked(c, m) => {
+                if d == 0 {
+                    return b0;
+                }
+                let per = hexlen(c) + 2 + c + 2;
+                let full = (d / c).min(m);
+                let part = if full < m { d % c } else { 0 };
+                // the CRLF after a complete chunk is not payload; count it as not yet consumed
+                b0 + full * per - if full > 0 && part == 0 { 2 } else { 0 }
+                    + if part > 0 { hexlen(c) + 2 + part } else { 0 }
+            }
+        }
+    }
+    /// number of payload bytes of this request lying in wire range [from, to)
+    fn payload_between(&self, from: usize, to: usize) -> usize {
+        let cnt = |x: usize| -> usize {
+            // payload bytes strictly before wire offset x
+            let b0 = self.start + self.head;
+            if x <= b0 {
+                return 0;
+            }
+            let r = x - b0;
+            match self.body {
+                Body::None => 0,
+                Body::Len(n) => r.min(n),
+                Body::Chunked(c, m) => {
+                    let per = hexlen(c) + 2 + c + 2;
+                    let full = (r / per).min(m);
+                    let rem = if full < m { r - full * per } else { 0 };
+                    full * c + rem.saturating_sub(hexlen(c) + 2).min(c)
+                }
+            }
+        };
+        cnt(to).saturating_sub(cnt(from))
+    }
+}
+
+/// `<method> /<path pad> HTTP/1.1\r\n[x: <pad>\r\n]<headers>\r\n` with exactly `pad` padding bytes:
+/// up to 4 in the path, more in a header value (`http::Uri` refuses paths beyond 65 534 bytes)
+fn push_head(buf: &mut Vec<u8>, method: &str, pad: usize, headers: &str) {
+    buf.extend_from_slice(method.as_bytes());
+    buf.extend_from_slice(b" /");
+    if pad < 5 {
+        buf.extend(std::iter::repeat(b'a').take(pad));
+    }
+    buf.extend_from_slice(b" HTTP/1.1\r\n");
+    if pad >= 5 {
+        buf.extend_from_slice(b"x: ");
+        buf.extend(std::iter::repeat(b'a').take(pad - 5));
+        buf.extend_from_slice(b"\r\n");
+    }
+    buf.extend_from_slice(headers.as_bytes());
+    buf.extend_from_slice(b"\r\n");
+}
+
+fn build_input(items: &[Item]) -> Option<(Vec<u8>, Vec<Lay>)> {
+    let mut buf: Vec<u8> = Vec::new();
+    let mut lays = Vec::new();
+    for it in items {
+        let start = buf.len();
+        match *it {
+            Item::Get { h } => {
+                if h < GET_BASE {
+                    return None;
+                }
+                push_head(&mut buf, "GET", h - GET_BASE, "");
+                debug_assert_eq!(buf.len() - start, h);
+                lays.push(Lay { start, head: h, end: buf.len(), body: Body::None, unparsable: false });
+            }
+            Item::Len { h, n } => {
+                if h < len_base(n) || n == 0 {
+                    return None;
+                }
+                push_head(&mut buf, "POST", h - len_base(n), &format!("content-length: {}\r\n", n));
+                debug_assert_eq!(buf.len() - start, h);
+                buf.extend(std::iter::repeat(b'd').take(n));
+                lays.push(Lay { start, head: h, end: buf.len(), body: Body::Len(n), unparsable: false });
+            }
+            Item::Chunked { h, c, m, term } => {
+                if h < CHUNKED_BASE || c == 0 || m == 0 {
+                    return None;
+                }
+                push_head(&mut buf, "POST", h - CHUNKED_BASE, "transfer-encoding: chunked\r\n");
+                debug_assert_eq!(buf.len() - start, h);
+                for _ in 0..m {
+                    buf.extend_from_slice(format!("{:x}\r\n", c).as_bytes());
+                    buf.extend(std::iter::repeat(b'd').take(c));
+                    buf.extend_from_slice(b"\r\n");
+                }
+                if term {
+                    buf.extend_from_slice(b"0\r\n\r\n");
+                }
+                lays.push(Lay { start, head: h, end: buf.len(), body: Body::Chunked(c, m), unparsable: false });
+            }
+            Item::Junk { n } => {
+                let pre = b"GET / HTTP/1.1\r\nx: ";
+                if n < pre.len() {
+                    return None;
+                }
+                buf.extend_from_slice(pre);
+                buf.extend(std::iter::repeat(b'a').take(n - pre.len()));
+                lays.push(Lay { start, head: n, end: buf.len(), body: Body::None, unparsable: true });
+            }
+            Item::Bad => {
+                buf.extend_from_slice(b"\x01\x02\r\n\r\n");
+                lays.push(Lay { start, head: 6, end: buf.len(), body: Body::None, unparsable: true });
+            }
+        }
+        if buf.len() > 64 << 20 {
+            return None;
+        }
+    }
+    Some((buf, lays))
+}
+
+// ------------------------------------------------------------------------------------------
+// shared recording state, scripted socket, scripted service
+// ------------------------------------------------------------------------------------------
+
+#[derive(Default)]
+struct RespRec {
+    /// chunks pulled from this response's body so far
+    pulled: usize,
+    chunk: usize,
+    stream: bool,
+    ended: bool,
+}
+
+/// one sample of the write side, taken whenever something is appended or accepted
+#[derive(Clone, Copy)]
+struct OutSample {
+    completions: usize,
+    pulled_last: usize,
+    ended_last: bool,
+    accepted: usize,
+}
+
+struct Shared {
+    // socket, read side
+    input: Vec<u8>,
+    avail: usize,
+    pos: usize,
+    seg: usize,
+    eof: bool,
+    max_offered: usize,
+    min_offered: usize,
+    // socket, write side
+    wbudget: u64,
+    wseg: usize,
+    accepted: usize,
+    out: Vec<u8>,
+    shutdown: bool,
+    // service
+    lays: Rc<Vec<Lay>>,
+    calls: usize,
+    credits: u64,
+    delivered: u64,
+    delivered_req: Vec<usize>,
+    payload_gone: Vec<bool>,
+    resp_queue: VecDeque<Spec>,
+    auto: Option<Spec>,
+    kept: Vec<actix_http::Payload>,
+    resps: Vec<RespRec>,
+    pulled_total: usize,
+    // oracle accounting
+    hwm_body_ahead: usize,
+    hwm_pipe_ahead: usize,
+    out_samples: Vec<OutSample>,
+}
+
+impl Shared {
+    /// (payload bytes of the in-service request read ahead of its handler, bytes taken beyond the
+    /// end of the last request handed to the service) — generator ground truth only
+    fn read_ahead(&self) -> (usize, usize) {
+        let t = self.pos;
+        if self.calls == 0 {
+            return (0, t);
+        }
+        let i = self.calls - 1;
+        let Some(l) = self.lays.get(i) else { return (0, 0) };
+        let body = if self.payload_gone[i] {
+            0
+        } else {
+            let from = l.wire_after_payload(self.delivered_req[i]);
+            l.payload_between(from, t.min(l.end))
+        };
+        (body, t.saturating_sub(l.end))
+    }
+    fn note_in(&mut self) {
+        let (b, p) = self.read_ahead();
+        self.hwm_body_ahead = self.hwm_body_ahead.max(b);
+        self.hwm_pipe_ahead = self.hwm_pipe_ahead.max(p);
+    }
+    fn note_out(&mut self) {
+        let (pl, el) = self.resps.last().map(|r| (r.pulled, r.ended)).unwrap_or((0, false));
+        let s = OutSample { completions: self.resps.len(), pulled_last: pl, ended_last: el, accepted: self.accepted };
+        if let Some(last) = self.out_samples.last() {
+            if last.completions == s.completions
+                && last.pulled_last == s.pulled_last
+                && last.ended_last == s.ended_last
+                && last.accepted == s.accepted
+            {
+                return;
+            }
+        }
+        if self.out_samples.len() < 400_000 {
+            self.out_samples.push(s);
+        }
+    }
+}
+
+type Sh = Rc<RefCell<Shared>>;
+
+struct Sock(Sh);
+
+impl AsyncRead for Sock {
+    fn poll_read(self: Pin<&mut Self>, _cx: &mut Context<'_>, buf: &mut ReadBuf<'_>) -> Poll<io::Result<()>> {
+        let mut s = self.0.borrow_mut();
+        let offered = buf.remaining();
+        s.max_offered = s.max_offered.max(offered);
+        s.min_offered = s.min_offered.min(offered);
+        let have = s.avail - s.pos;
+        if have == 0 {
+            return if s.eof { Poll::Ready(Ok(())) } else { Poll::Pending };
+        }
+        let mut n = have.min(offered);
+        if s.seg > 0 {
+            n = n.min(s.seg);
+        }
+        let p = s.pos;
+        buf.put_slice(&s.input[p..p + n]);
+        s.pos += n;
+        s.note_in();
+        Poll::Ready(Ok(()))
+    }
+}
+
+impl AsyncWrite for Sock {
+    fn poll_write(self: Pin<&mut Self>, _cx: &mut Context<'_>, data: &[u8]) -> Poll<io::Result<usize>> {
+        let mut s = self.0.borrow_mut();
+        s.note_out();
+        if s.wbudget == 0 || data.is_empty() {
+            return if data.is_empty() { Poll::Ready(Ok(0)) } else { Poll::Pending };
+        }
+        let mut n = (data.len() as u64).min(s.wbudget) as usize;
+        if s.wseg > 0 {
+            n = n.min(s.wseg);
+        }
+        if s.wbudget < INF {
+            s.wbudget -= n as u64;
+        }
+        s.accepted += n;
+        if s.out.len() < (96 << 20) {
+            s.out.extend_from_slice(&data[..n]);
+        }
+        s.note_out();
+        Poll::Ready(Ok(n))
+    }
+    fn poll_flush(self: Pin<&mut Self>, _cx: &mut Context<'_>) -> Poll<io::Result<()>> {
+        Poll::Ready(Ok(()))
+    }
+    fn poll_shutdown(self: Pin<&mut Self>, _cx: &mut Context<'_>) -> Poll<io::Result<()>> {
+        self.0.borrow_mut().shutdown = true;
+        Poll::Ready(Ok(()))
+    }
+}
+
+struct ScriptBody {
+    sh: Sh,
+    idx: usize,
+    kind: BodyKind,
+    c: usize,
+    left: usize,
+}
+
+impl MessageBody for ScriptBody {
+    type Error = Infallible;
+    fn size(&self) -> BodySize {
+        match self.kind {
+            BodyKind::Empty => BodySize::Sized(0),
+            BodyKind::NoBody => BodySize::None,
+            BodyKind::Stream => BodySize::Stream,
+            BodyKind::Sized => BodySize::Sized((self.c * self.left) as u64),
+        }
+    }
+    fn poll_next(self: Pin<&mut Self>, _cx: &mut Context<'_>) -> Poll<Option<Result<Bytes, Infallible>>> {
+        let this = self.get_mut();
+        let mut s = this.sh.borrow_mut();
+        if this.left > 0 {
+            this.left -= 1;
+            s.resps[this.idx].pulled += 1;
+            s.pulled_total += 1;
+            s.note_out();
+            Poll::Ready(Some(Ok(Bytes::from(vec![b'x'; this.c]))))
+        } else {
+            s.resps[this.idx].ended = true;
+            s.note_out();
+            Poll::Ready(None)
+        }
+    }
+}
+
+struct HandlerFut {
+    sh: Sh,
+    idx: usize,
+    payload: Option<actix_http::Payload>,
+    _req: Request,
+    pl_done: bool,
+}
+
+impl Future for HandlerFut {
+    type Output = Result<Response<ScriptBody>, actix_http::Error>;
+    fn poll(self: Pin<&mut Self>, cx: &mut Context<'_>) -> Poll<Self::Output> {
+        let this = self.get_mut();
+        loop {
+            if this.pl_done || this.sh.borrow().credits == 0 {
+                break;
+            }
+            let r = Pin::new(this.payload.as_mut().unwrap()).poll_next(cx);
+            let mut s = this.sh.borrow_mut();
+            match r {
+                Poll::Ready(Some(Ok(b))) => {
+                    if s.credits < INF {
+                        s.credits -= 1;
+                    }
+                    s.delivered += b.len() as u64;
+                    if let Some(d) = s.delivered_req.get_mut(this.idx) {
+                        *d += b.len();
+                    }
+                }
+                Poll::Ready(Some(Err(_))) | Poll::Ready(None) => this.pl_done = true,
+                Poll::Pending => break,
+            }
+        }
+        let spec = {
+            let mut s = this.sh.borrow_mut();
+            match s.resp_queue.pop_front() {
+                Some(x) => Some(x),
+                None => s.auto.clone(),
+            }
+        };
+        let Some(spec) = spec else { return Poll::Pending };
+        let mut s = this.sh.borrow_mut();
+        let pl = this.payload.take().unwrap();
+        if spec.keep {
+            s.kept.push(pl);
+        } else if let Some(g) = s.payload_gone.get_mut(this.idx) {
+            *g = true;
+        }
+        let ridx = s.resps.len();
+        s.resps.push(RespRec { pulled: 0, chunk: spec.c, stream: spec.kind == BodyKind::Stream, ended: false });
+        s.note_out();
+        let body = ScriptBody { sh: this.sh.clone(), idx: ridx, kind: spec.kind.clone(), c: spec.c, left: spec.m };
+        let status = if spec.kind == BodyKind::NoBody { StatusCode::NO_CONTENT } else { StatusCode::OK };
+        Poll::Ready(Ok(Response::new(status).set_body(body)))
+    }
+}
+
+// ------------------------------------------------------------------------------------------
+// running one case against the real code
+// ------------------------------------------------------------------------------------------
+
+#[derive(Clone, PartialEq, Debug)]
+struct Obs {
+    t: usize,
+    c: usize,
+    d: u64,
+    p: usize,
+    a: usize,
+    done: Option<String>,
+}
+
+fn obs(sh: &Sh, done: &Option<String>) -> Obs {
+    let s = sh.borrow();
+    Obs { t: s.pos, c: s.calls, d: s.delivered, p: s.pulled_total, a: s.accepted, done: done.clone() }
+}
+
+const SETTLE: usize = 3;
+const MAX_POLLS: usize = 200_000;
+
+struct Outcome {
+    snaps: Vec<Obs>,
+    done: Option<String>,
+    nosettle: bool,
+    statuses: Vec<u16>,
+    head_lens: Vec<usize>,
+    parsed_all: bool,
+    sh: Sh,
+}
+
+/// parse the bytes the socket accepted: status codes and head lengths of complete heads
+fn parse_out(out: &[u8]) -> (Vec<u16>, Vec<usize>, bool) {
+    let mut i = 0;
+    let mut st = Vec::new();
+    let mut hl = Vec::new();
+    let find = |from: usize, pat: &[u8]| -> Option<usize> {
+        out[from..].windows(pat.len()).position(|w| w == pat).map(|p| p + from)
+    };
+    while i < out.len() {
+        if !out[i..].starts_with(b"HTTP/1.1 ") {
+            return (st, hl, false);
+        }
+        let Some(e) = find(i, b"\r\n\r\n") else { return (st, hl, false) };
+        let head = &out[i..e + 4];
+        let code = std::str::from_utf8(&head[9..12]).ok().and_then(|s| s.parse::<u16>().ok()).unwrap_or(0);
+        st.push(code);
+        hl.push(head.len());
+        let hs = String::from_utf8_lossy(head).to_ascii_lowercase();
+        i = e + 4;
+        if hs.contains("transfer-encoding: chunked") {
+            loop {
+                let Some(le) = find(i, b"\r\n") else { return (st, hl, false) };
+                let n = usize::from_str_radix(std::str::from_utf8(&out[i..le]).unwrap_or("z"), 16);
+                let Ok(n) = n else { return (st, hl, false) };
+                i = le + 2;
+                if n == 0 {
+                    if out.len() < i + 2 {
+                        return (st, hl, false);
+                    }
+                    i += 2;
+                    break;
+                }
+                if out.len() < i + n + 2 {
+                    return (st, hl, false);
+                }
+                i += n + 2;
+            }
+        } else if let Some(p) = hs.find("content-length: ") {
+            let v: String = hs[p + 16..].chars().take_while(|c| c.is_ascii_digit()).collect();
+            let n: usize = v.parse().unwrap_or(0);
+            if out.len() < i + n {
+                return (st, hl, false);
+            }
+            i += n;
+        }
+    }
+    (st, hl, true)
+}
+
+fn drive(case: &Case) -> Option<Outcome> {
+    let (input, lays) = build_input(&case.items)?;
+    let nreq = lays.len();
+    let sh: Sh = Rc::new(RefCell::new(Shared {
+        input,
+        avail: 0,
+        pos: 0,
+        seg: case.seg,
+        eof: false,
+        max_offered: 0,
+        min_offered: usize::MAX,
+        wbudget: 0,
+        wseg: case.wseg,
+        accepted: 0,
+        out: Vec::new(),
+        shutdown: false,
+        lays: Rc::new(lays),
+        calls: 0,
+        credits: 0,
+        delivered: 0,
+        delivered_req: vec![0; nreq],
+        payload_gone: vec![false; nreq],
+        resp_queue: VecDeque::new(),
+        auto: None,
+        kept: Vec::new(),
+        resps: Vec::new(),
+        pulled_total: 0,
+        hwm_body_ahead: 0,
+        hwm_pipe_ahead: 0,
+        out_samples: Vec::new(),
+    }));
+    let sh2 = sh.clone();
+    let case2 = case.clone();
+    let (snaps, done, nosettle) = block_on_system(async move {
+        let sh = sh2;
+        let case = case2;
+        let sh_svc = sh.clone();
+        let factory = HttpService::build()
+            .keep_alive(KeepAlive::Timeout(Duration::from_secs(86_400)))
+            .client_request_timeout(Duration::ZERO)
+            .client_disconnect_timeout(Duration::ZERO)
+            .h1_allow_half_closed(case.hc)
+            .h1_write_buffer_size(case.wbs)
+            .h1(fn_service(move |mut req: Request| {
+                let idx = {
+                    let mut s = sh_svc.borrow_mut();
+                    s.calls += 1;
+                    s.calls - 1
+                };
+                let payload = req.take_payload();
+                HandlerFut { sh: sh_svc.clone(), idx, payload: Some(payload), _req: req, pl_done: false }
+            }));
+        let svc = factory.new_service(()).await.ok().expect("service");
+        let mut fut = Box::pin(svc.call((Sock(sh.clone()), None)));
+        let mut done: Option<String> = None;
+        let mut snaps = Vec::new();
+        let mut nosettle = false;
+        // a `Poll` step first so that the start-up poll is part of every script
+        let mut steps = vec![Step::Poll];
+        steps.extend(case.steps.iter().cloned());
+        for st in steps {
+            {
+                let mut s = sh.borrow_mut();
+                match st {
+                    Step::Avail(n) => s.avail = (s.avail + n).min(s.input.len()),
+                    Step::AvailAll => s.avail = s.input.len(),
+                    Step::Eof => s.eof = true,
+                    Step::Credit(n) => s.credits = (s.credits + n).min(INF),
+                    Step::CreditAll => s.credits = INF,
+                    Step::Respond(sp) => s.resp_queue.push_back(sp),
+                    Step::Auto(sp) => s.auto = Some(sp),
+                    Step::Budget(n) => s.wbudget = (s.wbudget + n).min(INF),
+                    Step::BudgetAll => s.wbudget = INF,
+                    Step::Poll => {}
+                }
+            }
+            let mut same = 0;
+            let mut polls = 0;
+            let mut last = obs(&sh, &done);
+            while done.is_none() && same < SETTLE {
+                let r = std::future::poll_fn(|cx| Poll::Ready(fut.as_mut().poll(cx))).await;
+                if let Poll::Ready(r) = r {
+                    done = Some(match r {
+                        Ok(()) => "ok".to_owned(),
+                        Err(e) => format!("err:{}", err_kind(&e)),
+                    });
+                }
+                let now = obs(&sh, &done);
+                if now == last {
+                    same += 1;
+                } else {
+                    same = 0;
+                    last = now;
+                }
+                polls += 1;
+                if polls >= MAX_POLLS {
+                    nosettle = true;
+                    break;
+                }
+            }
+            snaps.push(obs(&sh, &done));
+        }
+        // handlers may have stashed payloads: drop them inside the system
+        sh.borrow_mut().kept.clear();
+        drop(fut);
+        (snaps, done, nosettle)
+    });
+    let (statuses, head_lens, parsed_all) = parse_out(&sh.borrow().out);
+    Some(Outcome { snaps, done, nosettle, statuses, head_lens, parsed_all, sh })
+}
+
+fn err_kind(e: &actix_http::error::DispatchError) -> &'static str {
+    use actix_http::error::DispatchError as D;
+    match e {
+        D::Service(_) => "service",
+        D::Body(_) => "body",
+        D::Upgrade => "upgrade",
+        D::Io(_) => "io",
+        D::Parse(p) => match p {
+            actix_http::error::ParseError::TooLarge => "toolarge",
+            _ => "parse",
+        },
+        D::H2(_) => "h2",
+        D::SlowRequestTimeout => "slow",
+        D::DisconnectTimeout => "disconnect",
+        D::HandlerDroppedPayload => "dropped",
+        D::InternalError => "internal",
+        _ => "other",
+    }
+}
+
+// ------------------------------------------------------------------------------------------
+// oracle: the property's own words, evaluated on what the socket and the service saw
+// ------------------------------------------------------------------------------------------
+
+fn enc_chunk(stream: bool, c: usize) -> usize {
+    if stream {
+        format!("{:X}", c).len() + 2 + c + 2
+    } else {
+        c
+    }
+}
+
+fn oracle(case: &Case, o: &Outcome) -> Option<(String, String)> {
+    let s = o.sh.borrow();
+    // the largest amount one poll_read could append: the scripted segment, or — greedy socket —
+    // whatever BytesMut offered
+    let max_read = if case.seg > 0 { case.seg.min(s.max_offered.max(1)) } else { s.max_offered };
+    let rmax = MAX_BUFFER_SIZE - 1 + max_read;
+    if s.min_offered != usize::MAX && s.min_offered < LW_BUFFER_SIZE {
+        return Some(("read-offer-below-lw".into(), format!("poll_read was offered {} < {}", s.min_offered, LW_BUFFER_SIZE)));
+    }
+    // (1) request-body bytes read ahead of the handler: what the channel may hold when it pauses
+    // (< 32 768) plus the read buffer that was decoded into it, plus one refilled read buffer
+    let b_body = PAYLOAD_MAX - 1 + 2 * rmax;
+    if s.hwm_body_ahead > b_body {
+        return Some((
+            "body-read-ahead".into(),
+            format!("{} payload bytes taken from the socket ahead of the handler > {}", s.hwm_body_ahead, b_body),
+        ));
+    }
+    // (2) unparsed input + queued pipelined requests beyond the request in service:
+    // one full read buffer unparsed, one full read buffer decoded by the poll_request call that
+    // found fewer than MAX_PIPELINED_MESSAGES queued, and the MAX_PIPELINED-1 queued before it
+    let max_req = s
+        .lays
+        .iter()
+        .map(|l| l.head + match l.body {
+            Body::None => 0,
+            Body::Len(n) => n.min(PAYLOAD_MAX - 1 + rmax),
+            Body::Chunked(..) => (l.end - l.start - l.head).min(6 * (PAYLOAD_MAX - 1 + rmax)),
+        })
+        .max()
+        .unwrap_or(0);
+    let b_pipe = 2 * rmax + (MAX_PIPELINED - 1) * max_req.min(2 * rmax + PAYLOAD_MAX);
+    if s.hwm_pipe_ahead > b_pipe {
+        return Some((
+            "pipelined-read-ahead".into(),
+            format!("{} bytes taken beyond the request in service > {}", s.hwm_pipe_ahead, b_pipe),
+        ));
+    }
+    // (3) a head that does not fit is refused with 431 and nothing more is read
+    if let Some((k, l)) = s.lays.iter().enumerate().find(|(_, l)| l.unparsable || l.head > rmax) {
+        let all_before_done = s.calls >= k && s.resps.len() >= k;
+        let offered_enough = s.avail >= l.start + l.head.min(rmax + 1) && l.head >= MAX_BUFFER_SIZE;
+        let is_junk_or_big = case.items.get(k).map(|i| !matches!(i, Item::Bad)).unwrap_or(false);
+        if is_junk_or_big && all_before_done && offered_enough && s.wbudget >= INF && o.parsed_all {
+            let prev_closed = o.statuses.len() < k; // connection was closed before reaching it
+            if !prev_closed {
+                if !o.statuses.contains(&431) {
+                    return Some((
+                        "partial-head-not-refused".into(),
+                        format!("head of {} bytes never completes, {} bytes taken, statuses {:?}", l.head, s.pos, o.statuses),
+                    ));
+                }
+                if s.pos > l.start + rmax {
+                    return Some((
+                        "read-after-refusal".into(),
+                        format!("{} bytes of an unparsable head taken > {}", s.pos - l.start, rmax),
+                    ));
+                }
+            }
+        }
+    }
+    // (4) response bytes buffered ahead of the socket
+    let head_max = o.head_lens.iter().copied().max().unwrap_or(0);
+    let enc_max = s.resps.iter().map(|r| enc_chunk(r.stream, r.chunk)).max().unwrap_or(0);
+    let b_out = case.wbs - 1 + enc_max.max(5 + head_max) + head_max;
+    let mut worst = 0usize;
+    let mut worst_at = 0usize;
+    // produced bytes of responses < k (complete ones), computed from what was pulled
+    let mut prefix = vec![0usize; s.resps.len() + 1];
+    for (k, r) in s.resps.iter().enumerate() {
+        let h = o.head_lens.get(k).copied().unwrap_or(0);
+        let full = h + r.pulled * enc_chunk(r.stream, r.chunk) + if r.ended && r.stream { 5 } else { 0 };
+        prefix[k + 1] = prefix[k] + full;
+    }
+    for sm in s.out_samples.iter() {
+        if sm.completions == 0 {
+            continue;
+        }
+        let k = sm.completions - 1;
+        let r = &s.resps[k];
+        let h = o.head_lens.get(k).copied().unwrap_or(0);
+        let produced = prefix[k]
+            + h
+            + sm.pulled_last * enc_chunk(r.stream, r.chunk)
+            + if sm.ended_last && r.stream { 5 } else { 0 };
+        let held = produced.saturating_sub(sm.accepted);
+        if held > worst {
+            worst = held;
+            worst_at = sm.completions;
+        }
+    }
+    if worst > b_out {
+        // which kind of response piled up? bodyless ones are appended without any size test
+        let bodyless = s.resps.iter().take(worst_at).filter(|r| r.chunk == 0).count();
+        let sig = if bodyless >= 2 { "writebuf-bodyless-pipelined" } else { "writebuf" };
+        return Some((
+            sig.into(),
+            format!(
+                "{} response bytes buffered ahead of the socket > wbs {} - 1 + max(chunk {}, 5 + head {}) + head = {} ({} responses started, {} bodyless)",
+                worst, case.wbs, enc_max, head_max, b_out, worst_at, bodyless
+            ),
+        ));
+    }
+    None
+}
+
+/// run-length encoded status list: `200x3,431`
+fn rle(st: &[u16]) -> String {
+    if st.is_empty() {
+        return "-".to_owned();
+    }
+    let mut parts: Vec<String> = Vec::new();
+    let mut i = 0;
+    while i < st.len() {
+        let mut j = i;
+        while j < st.len() && st[j] == st[i] {
+            j += 1;
+        }
+        parts.push(if j - i > 1 { format!("{}x{}", st[i], j - i) } else { st[i].to_string() });
+        i = j;
+    }
+    parts.join(",")
+}
+
+fn run(line: &str) -> CaseResult {
+    let Some(case) = parse_case(line) else {
+        return CaseResult { output: "bad-case".into(), fail: None, nontrivial: false, tags: vec!["bad-case".into()] };
+    };
+    let Some(o) = drive(&case) else {
+        return CaseResult { output: "bad-case".into(), fail: None, nontrivial: false, tags: vec!["bad-case".into()] };
+    };
+    let mut out = String::new();
+    if case.seg == 0 {
+        // a socket that fills whatever BytesMut offers: how much that is depends on the allocator
+        // (capacity doubling), which the model does not describe; oracle only
+        let mut res = CaseResult::ok("greedy".into());
+        res.tags.push("greedy".into());
+        res.nontrivial = o.sh.borrow().calls > 0;
+        if let Some((sig, d)) = oracle(&case, &o) {
+            res = res.fail(&sig, d);
+        }
+        return res;
+    }
+    for sn in &o.snaps {
+        out.push_str(&format!("{}:{}:{}:{}:{} ", sn.t, sn.c, sn.d, sn.p, sn.a));
+    }
+    out.push_str(&format!(
+        "done={} sd={} st={}",
+        o.done.clone().unwrap_or_else(|| "-".into()),
+        if o.sh.borrow().shutdown { 1 } else { 0 },
+        rle(&o.statuses)
+    ));
+    if o.nosettle {
+        out.push_str(" NOSETTLE");
+    }
+    if std::env::var("C05_DEBUG").is_ok() {
+        let s = o.sh.borrow();
+        eprintln!("case {} :: max_offered={} min_offered={} hwm_body={} hwm_pipe={}", line, s.max_offered, s.min_offered, s.hwm_body_ahead, s.hwm_pipe_ahead);
+    }
+    let mut res = CaseResult::ok(out);
+    {
+        let s = o.sh.borrow();
+        res.nontrivial = s.calls > 0 || o.statuses.iter().any(|c| *c == 431 || *c == 400);
+        if s.calls > 1 {
+            res.tags.push("pipelined".into());
+        }
+        if o.statuses.contains(&431) {
+            res.tags.push("431".into());
+        }
+        if o.statuses.contains(&400) {
+            res.tags.push("400".into());
+        }
+        if s.hwm_body_ahead >= PAYLOAD_MAX {
+            res.tags.push("payload-paused".into());
+        }
+        if s.hwm_pipe_ahead >= MAX_BUFFER_SIZE {
+            res.tags.push("readbuf-full".into());
+        }
+        if s.pulled_total > 0 {
+            res.tags.push("body-pulled".into());
+        }
+        if s.accepted < s.out.len().max(s.accepted) || s.wbudget == 0 {
+            res.tags.push("write-stalled".into());
+        }
+        if o.done.is_some() {
+            res.tags.push(format!("done-{}", o.done.as_deref().unwrap_or("-").split(':').next().unwrap()));
+        }
+        if case.seg == 0 {
+            res.tags.push("greedy".into());
+        }
+    }
+    if o.nosettle {
+        res = res.fail("no-settle", format!("connection did not settle within {} polls", MAX_POLLS));
+    }
+    if let Some((sig, d)) = oracle(&case, &o) {
+        res = res.fail(&sig, d);
+    }
+    res
+}
+
+// ------------------------------------------------------------------------------------------
+// generator
+// ------------------------------------------------------------------------------------------
+
+fn gen(ctx: &Ctx) -> Vec<String> {
+    let mut rng = Rng::new(ctx.seed);
+    let mut cases: Vec<String> = Vec::new();
+    let segs = [1024usize, 1000, 512, 777, 1];
+    let _ = segs;
+    // --- stalled handler, huge bodies
+    for _ in 0..ctx.budget(6) {
+        let seg = *rng.pick(&[1024usize, 1000, 512, 777]);
+        let n = rng.range(200_000, 700_000);
+        let h = rng.range(40, 300);
+        cases.push(format!("seg={} +l{}:{} S p c1 c3 C re W", seg, h, n));
+        let c = *rng.pick(&[1usize, 7, 100, 1000, 4096, 70_000]);
+        let m = (rng.range(300_000, 600_000) / (c + 8)).max(2);
+        cases.push(format!("seg={} +k{}:{}x{} S c1 c2 c50 C re W", seg, CHUNKED_BASE + rng.below(50), c, m));
+    }
+    // --- pipelined tiny requests, handler never completes, then released
+    for _ in 0..ctx.budget(4) {
+        let seg = *rng.pick(&[1024usize, 1000, 333]);
+        let k = rng.range(9_000, 20_000);
+        let h = rng.range(18, 40);
+        cases.push(format!("seg={} +{}*g{} S p re W Re", seg, k, h));
+    }
+    // --- endless header line / over-long head
+    for _ in 0..ctx.budget(4) {
+        let seg = *rng.pick(&[1024usize, 1000, 1]);
+        let seg = if seg == 1 { 1024 } else { seg };
+        let n = rng.range(140_000, 400_000);
+        let pre = rng.below(3);
+        cases.push(format!("seg={} Re W +{}*g30 +j{} S", seg, pre, n));
+        cases.push(format!("seg={} Re W +g{} S", seg, rng.range(131_000, 140_000)));
+    }
+    // --- write side: socket never accepts
+    for _ in 0..ctx.budget(12) {
+        let wbs = *rng.pick(&[1usize, 100, 1024, 4096, 32_768, 100_000]);
+        let c = *rng.pick(&[1usize, 10, 1000, 5000, 40_000]);
+        let m = rng.range(1, 60);
+        let kind = if rng.chance(1, 2) { "s" } else { "z" };
+        let w1 = rng.range(1, 3000);
+        cases.push(format!("wbs={} +g18 +g18 S r{}{}x{} p w{} w{} re W", wbs, kind, c, m, w1, rng.range(1, 100_000)));
+    }
+    // --- random mixes
+    for _ in 0..ctx.budget(120) {
+        let mut toks: Vec<String> = Vec::new();
+        toks.push(format!("wbs={}", rng.pick(&[1usize, 64, 1000, 32_768])));
+        toks.push(format!("seg={}", rng.pick(&[1024usize, 1000, 100, 17])));
+        if rng.chance(1, 3) {
+            toks.push(format!("wseg={}", rng.pick(&[1usize, 10, 1000])));
+        }
+        let nit = rng.range(1, 5);
+        for _ in 0..nit {
+            let rep = if rng.chance(1, 4) { rng.range(2, 40) } else { 1 };
+            let pre = if rep > 1 { format!("{}*", rep) } else { String::new() };
+            match rng.below(4) {
+                0 => toks.push(format!("+{}g{}", pre, rng.range(18, 200))),
+                1 => {
+                    let n = rng.range(1, 60_000);
+                    toks.push(format!("+{}l{}:{}", pre, len_base(n) + rng.below(100), n))
+                }
+                2 => toks.push(format!("+{}k{}:{}x{}", pre, CHUNKED_BASE + rng.below(100), rng.range(1, 5000), rng.range(1, 12))),
+                _ => toks.push(format!("+{}g{}", pre, rng.range(18, 60))),
+            }
+        }
+        let nst = rng.range(2, 14);
+        for _ in 0..nst {
+            let t = match rng.below(10) {
+                0 => format!("s{}", rng.range(1, 50_000)),
+                1 => "S".to_owned(),
+                2 => format!("c{}", rng.range(1, 5)),
+                3 => "C".to_owned(),
+                4 => "re".to_owned(),
+                5 => format!("rs{}x{}", rng.range(1, 3000), rng.range(1, 8)),
+                6 => format!("rz{}x{}", rng.range(1, 3000), rng.range(1, 8)),
+                7 => format!("w{}", rng.range(1, 5000)),
+                8 => "W".to_owned(),
+                _ => "p".to_owned(),
+            };
+            toks.push(t);
+        }
+        if rng.chance(1, 2) {
+            toks.push("Re".into());
+            toks.push("C".into());
+            toks.push("W".into());
+        }
+        cases.push(toks.join(" "));
+    }
+    if ctx.tier != Tier::Quick {
+        // a few larger floods
+        for _ in 0..4 {
+            cases.push(format!("+{}*g18 S p Re W", rng.range(30_000, 60_000)));
+        }
+    }
+    cases
+}
 
 pub fn prop() -> Prop {
-    Prop {
-        rule: "unimplemented",
-        parallel: false,
-        gen: Box::new(|_| Vec::new()),
-        run: Box::new(|_| CaseResult::ok("unimplemented".to_owned())),
-    }
+    Prop { rule: RULE, parallel: true, gen: Box::new(gen), run: Box::new(run) }
 }
